@@ -123,4 +123,13 @@ CHECKS = {
         ],
         assumptions=SIM_ASSUMPTIONS + ["server-side apply is the sim's model of SSA for schemaless custom resources (per-manager applied configuration, lists atomic, force)"],
     ),
+    "C08": dict(
+        level="model_checking",
+        rule="all fair rollouts: children n=1..3 (thorough 4) x parent/child scope (namespaced/namespaced, cluster/namespaced, cluster/cluster) x RollingInPlace/RollingRecreate x status checks on/off x generateSelector on/off x the sync index (-1..3n+4) at which a second spec change arrives; "
+             "fair environment after every sync (caches delivered, GC, every child healthy and observed); completion within 2n+6 / 3n+6 syncs; first change template or template+scale-down, second change template / scale-down / scale-up, Updated=True, exactly one ControllerRevision; never 'missing child' for a cached child",
+        units=[
+            dict(pkg=COMPOSITE, test="TestVerifC08", shards=dict(quick=8, thorough=16), budget=dict(quick=300, thorough=1200)),
+        ],
+        assumptions=SIM_ASSUMPTIONS + ["fair environment: the harness, acting as the children's own controllers, marks every child Ready=True with observedGeneration=generation after every sync"],
+    ),
 }
